@@ -300,7 +300,32 @@ def gen_placement_case(rng):
         use(2, nm, vt)
         skel.append("V")
     args = ", ".join(f"%c{k + 1}: i1" for k in range(cond_n[0]))
-    text = "builtin.module {\n  func.func @main(" + args + ") {\n" + "\n".join(lines) + "\n    func.return\n  }\n}\n"
+    callee = ""
+    force_static = False
+    if rng.random() < 0.12:
+        # a second function that allocates in the same memory, called while buffers of @main are still in use (static mode only:
+        # one memory, one bump pointer for the whole module)
+        force_static = True
+        kq = rng.choice([4, 8, 16, 64])
+        ct = f'memref<{kq}xi32, "L1">'
+        callee = (
+            "  func.func @callee() {\n"
+            f'    %q0 = "memref.alloc"() <{{operandSegmentSizes = array<i32: 0, 0>, alignment = {rng.choice([1, 4, 64])} : i64}}> : () -> {ct}\n'
+            f'    "test.op"(%q0) {{verif.id = "uq0"}} : ({ct}) -> ()\n'
+            f'    "test.op"(%q0) {{verif.id = "uq1"}} : ({ct}) -> ()\n'
+            "    func.return\n  }\n"
+        )
+        pos = rng.randrange(1, len(lines) + 1)
+        # only between complete top-level statements
+        while pos < len(lines) and not (lines[pos].startswith("    ") and not lines[pos].startswith("     ") and not lines[pos].startswith("    }")):
+            pos += 1
+        lines.insert(pos, "    func.call @callee() : () -> ()")
+        if live:
+            j = rng.choice(live)
+            vid[0] += 1
+            lines.append(f'    "test.op"(%b{j}) {{verif.id = "u{vid[0]}"}} : ({bufs[j]["t"]}) -> ()')
+        skel.append("K")
+    text = "builtin.module {\n  func.func @main(" + args + ") {\n" + "\n".join(lines) + "\n    func.return\n  }\n" + callee + "}\n"
     start = rng.choice([0x10000000, 0x10000000, 0, 64, 0x1004, 100])
     total = sum(b["n"] * 4 + 64 for b in bufs)
     # generous, huge, too small, and *tight* memories (the plain sum of the sizes plus little slack: alignment padding decides
@@ -312,6 +337,8 @@ def gen_placement_case(rng):
         cap = exact + rng.choice([0, 4, 16, 40, 100, 200])
         if rng.random() < 0.7:
             mode = "static"
+    if force_static:
+        mode = "static"
     return {"part": "b", "text": text, "start": start, "cap": cap, "mode": mode, "nconds": cond_n[0], "skel": "".join(skel), "nb": nb}
 
 
